@@ -87,6 +87,13 @@ Seventh round (g) - changes that bite only through a rarely used argument, alias
 * **C15-g** (bytes are no longer tried as JSON): a valid JSON message handed over as bytes must be applied.
 * **C18-g** (the instrumented emit wrapper drops `ignore_queue`): C18 runs a quarter of its histories on a message-queue manager with a second, plain host whose client sees what goes through the queue; half of the emits are local-only.
 * **C19-g** (`__disconnect_final` registered for `/`): the simple client connects to `/chat` in a third of the runs.
+
+Eighth round (h) - changes whose breakage needs a repeated or later occurrence (state not reset, or reset too eagerly, between occurrences). 4 of 18 missed at first:
+
+* **C07-h** (issuing host drops older callbacks of a remote client when a later one is acknowledged): ACKs are now sent for any outstanding callback, not the oldest first.
+* **C10-h** (a sticky "disconnect requested" flag): the client object now has a history before the connection that is lost - a disconnect() while idle, or a full connect / disconnect cycle.
+* **C13-h** (handler resolution memoised, invalidated only for the key being registered): after the first event a function handler of higher precedence is registered under a different key and the event is sent again.
+* **C20-h** (pending-disconnect list created with the namespace but deleted when it empties): the namespace has already seen another client come and be disconnected before the concurrent terminations start.
 """
 
 
